@@ -121,8 +121,16 @@ def run(ctx: Ctx):
     try:
         for prov in ("zoneinfo", "pytz"):
             tzp.use(prov)
-            for tzid in ids:
-                for (f, l) in (windows if tzid in HARD or not ctx.quick else windows[:1]):
+            # windows that END the day after a transition of a zone whose first (LMT) entry lies on the other side of the date
+            # line, or START on the day of one: the window bounds are local midnights of the zone, probed to within an hour
+            edge = [("America/Anchorage", date(2017, 1, 1), date(2019, 3, 11)), ("America/Anchorage", date(2019, 11, 3), date(2021, 1, 1)),
+                    ("Pacific/Pago_Pago", date(1967, 1, 1), date(1967, 4, 24)), ("Asia/Manila", date(1977, 1, 1), date(1978, 3, 23)),
+                    ("Pacific/Kiritimati", date(1993, 1, 1), date(1995, 1, 2)), ("Europe/Berlin", date(2019, 1, 1), date(2019, 4, 1)),
+                    ("America/New_York", date(2019, 3, 10), date(2019, 11, 4)), ("Pacific/Guam", date(1975, 1, 1), date(1977, 4, 25))]
+            jobs = [(tzid, f, l, False) for tzid in ids for (f, l) in (windows if tzid in HARD or not ctx.quick else windows[:1])]
+            jobs += [(tzid, f, l, True) for tzid, f, l in edge]
+            for tzid, f, l, tight in jobs:
+                for _once in (0,):
                     src = tzp.timezone(tzid)
                     if src is None:
                         continue
@@ -138,6 +146,10 @@ def run(ctx: Ctx):
                         continue
                     ctx.case((prov, tzid, str(f), str(l)), True)
                     w0, w1 = secs(datetime(f.year, f.month, f.day, tzinfo=UTC)), secs(datetime(l.year, l.month, l.day, tzinfo=UTC))
+                    if tight:
+                        # the window is [local midnight of f, local midnight of l) in the source zone itself
+                        w0 = secs(tzp.localize(datetime(f.year, f.month, f.day), tzid).astimezone(UTC)) - 86400 + 3600
+                        w1 = secs(tzp.localize(datetime(l.year, l.month, l.day), tzid).astimezone(UTC)) + 86400 - 3600
                     trs = transitions(src, w0 + 86400, w1 - 86400)
                     pts = set()
                     for t in trs:
